@@ -18,6 +18,7 @@ import (
 	"sort"
 	"strings"
 	"sync"
+	"sync/atomic"
 	"time"
 
 	"github.com/skycoin/skycoin/src/cipher/encoder"
@@ -98,6 +99,8 @@ type planRun struct {
 	log   []string
 	race  bool
 
+	lastUsed     map[*wire.Peer]time.Time // keep-alive bookkeeping only (the node drops a connection it has not heard from for 30 s)
+
 	gapDropped   map[uint64]bool
 	gapFilled    bool
 	forgedSent   bool
@@ -162,9 +165,12 @@ func frameFor(items []item) []byte {
 	out := f
 	if m := len(f) % 1024; m >= 1017 && m <= 1019 {
 		out = append(wire.Frame("PONG", nil), f...)
+		atomic.AddInt64(&shiftedBursts, 1)
 	}
 	return append(out, wire.Frame("PING", nil)...)
 }
+
+var shiftedBursts int64
 
 func getJSON(url string, v interface{}) error {
 	resp, err := http.Get(url)
@@ -304,6 +310,21 @@ func leU64(b []byte) uint64 {
 // deliver sends one message (or two concurrently from two peers), waits for the barriers and
 // checks everything the property says about the step
 func (p *planRun) deliver(phase string, senders []int, msgs [][]item) bool {
+	// keep-alive: the node's connection pool closes a connection after 30 s without input, so a
+	// peer that has been silent for a while sends a PING (this decides nothing)
+	for _, pr := range p.peers {
+		if time.Since(p.lastUsed[pr]) > 5*time.Second {
+			if !pr.Barrier(watchdog) {
+				p.r.Inconclusive("keep-alive barrier failed (idle peer connection closed by the node's read timeout?)")
+				p.failed = true
+				return false
+			}
+			p.lastUsed[pr] = time.Now()
+		}
+	}
+	for _, s := range senders {
+		p.lastUsed[p.peers[s]] = time.Now()
+	}
 	before := p.head
 	adm := admissible(before, msgs...)
 	froms := make([]int, len(senders))
@@ -361,8 +382,11 @@ func (p *planRun) deliver(phase string, senders []int, msgs [][]item) bool {
 			return false
 		}
 		if _, ok := p.peers[s].WaitFor("PONG", froms[i], watchdog); !ok {
-			if p.peers[s].EOF {
+			if p.peers[s].EOF && time.Since(p.lastUsed[p.peers[s]]) < 20*time.Second {
 				p.viol("peer-connection-lost", map[string]string{"phase": phase, "err": "EOF before PONG"}, nil)
+			} else if p.peers[s].EOF {
+				p.r.Inconclusive("peer connection closed after a long stall (the node's 30 s read timeout cannot be excluded)")
+				p.failed = true
 			} else {
 				p.r.Inconclusive("watchdog: no PONG after GIVB")
 				p.failed = true
@@ -540,7 +564,7 @@ func runPlan(r *vf.Run, bin, dir string, idx int, race bool) (stderr []byte) {
 	}
 	rng := r.Rand(label, idx)
 	p := &planRun{r: r, id: fmt.Sprintf("seed%d-%s%d", r.Seed, label, idx), rng: rng, race: race,
-		have: map[uint64]bool{}, gapDropped: map[uint64]bool{}, forgedAtHead: map[string]bool{}}
+		have: map[uint64]bool{}, lastUsed: map[*wire.Peer]time.Time{}, gapDropped: map[uint64]bool{}, forgedAtHead: map[string]bool{}}
 	n := 4 + rng.Intn(9) // 4..12
 	tag := fmt.Sprintf("c33-%d-%s-%d", r.Seed, label, idx)
 	rc, err := buildChain(rng, tag, dir, n)
@@ -597,6 +621,7 @@ func runPlan(r *vf.Run, bin, dir string, idx int, race bool) (stderr []byte) {
 		} else {
 			p.peers = append(p.peers, pr)
 		}
+		p.lastUsed[pr] = time.Now()
 		if !pr.Introduce(rc.Chain.Publisher.Pub, uint32(1000+i), watchdog) || !pr.Barrier(watchdog) {
 			r.Inconclusive("peer could not introduce itself")
 			return
@@ -617,7 +642,24 @@ func runPlan(r *vf.Run, bin, dir string, idx int, race bool) (stderr []byte) {
 
 	// --- chaos phase
 	steps := 5 + rng.Intn(12)
+	// plans with forging offer, deliberately, a forged sibling exactly where the next block is
+	// expected: once at the very start and once later, classes cycling over the plans
+	forgeAt := map[int]string{}
+	if forgeRate > 0 {
+		fidx := idx - idx/4 - 1 // index among the forging plans
+		forgeAt[0] = forgedClasses[fidx%len(forgedClasses)]
+		forgeAt[1+rng.Intn(steps-1)] = forgedClasses[(fidx+4)%len(forgedClasses)]
+	}
 	for s := 0; s < steps && !p.failed; s++ {
+		if class, ok := forgeAt[s]; ok && p.head < p.n {
+			seq := p.head + 1
+			m := []item{{Seq: seq, Class: class, Block: p.rc.forge(p.rng, int(seq), class)}}
+			if p.have[seq] && rng.Intn(2) == 0 {
+				m = append(m, p.genuine(seq)) // behind a failed block: must not be taken
+			}
+			p.deliver("chaos", []int{rng.Intn(np)}, [][]item{m})
+			continue
+		}
 		if np >= 2 && rng.Intn(6) == 0 {
 			a := rng.Intn(np)
 			b := (a + 1 + rng.Intn(np-1)) % np
